@@ -110,6 +110,22 @@ def run(tier, replay):
         lo, hi = (a & 0xffff) & 0xff, (a & 0xffff) >> 8
         progs.append("DIM A%%\r\nA%% = 0\r\nDEF SEG = VARSEG(A%%)\r\nPOKE VARPTR(A%%), %d\r\nPOKE VARPTR(A%%) + 1, %d\r\nPRINT A%%\r\n" % (lo, hi))
         pmeta.append(("poke", (lo, hi)))
+    # the same through ELEMENTS of arrays that stand between other variables and arrays (segment / offset arithmetic)
+    NL = "\r\n"
+    layouts = [["N% = 7", "DIM A%(2)", "A%(1) = 4660", "DIM B%(3)"],
+               ["DIM A%(2)", "A%(1) = 4660", "M& = 70000", 'S$ = "xy"', "DIM B%(3)", "Z# = 1.5"],
+               ["DIM B%(3)"]]
+    for a in EDGE[::2] + [rng.randint(-32768, 32767) for _ in range(20)]:
+        for layout in layouts:
+            for el in (0, 1, 3):
+                ref = "B%%(%d)" % el
+                lines = layout + ["%s = %d" % (ref, a), "DEF SEG = VARSEG(%s)" % ref, "PRINT PEEK(VARPTR(%s)); PEEK(VARPTR(%s) + 1)" % (ref, ref)]
+                progs.append(NL.join(lines) + NL)
+                pmeta.append(("peek", a))
+                lo, hi = (a & 0xffff) & 0xff, (a & 0xffff) >> 8
+                lines = layout + ["DEF SEG = VARSEG(%s)" % ref, "POKE VARPTR(%s), %d" % (ref, lo), "POKE VARPTR(%s) + 1, %d" % (ref, hi), "PRINT " + ref]
+                progs.append(NL.join(lines) + NL)
+                pmeta.append(("poke", (lo, hi)))
     # doubles built inside BASIC: +-2^k by repeated doubling / halving, small whole numbers
     for k in list(range(0, 120, 3)) + [52, 53, 62, 63, 64, 65, 100, 200, 500, 1000, 1023]:
         for sign in (1, -1):
